@@ -209,6 +209,34 @@ def run_history(fam: Any) -> dict[str, Any]:
     return {"violations": viol, "exact": False, "sample": None}
 
 
+# Event type names are arbitrary strings (the OTel ingestion composes them with "_"); the inference must not depend on what they look like.
+# (The tool's own start marker tel2puml_types.DUMMY_START_EVENT = "|||START|||" is the one reserved name: an observed event of that name
+# is outside the domain - stated, not hidden: with it the unchanged code fails.)
+NAME_POOLS = [
+    ["get", "cart", "get_cart", "cart_get", "get_cart_get", "cart_get_cart"],     # joins of one another
+    ["a", "a_a", "a_a_a", "_", "__", "a_"],
+    ["tau", "A", "B", "C", "D", "E"],                                              # pm4py prints a silent leaf as "tau"
+    ["", "A", "B", "C", "D", " "],
+    ["X", "+", "O", "*", "->", "BR"],                                              # operator symbols
+    ["A B", "A", "B", "a,b", "'q'", "A(B)"],
+    ["None", "tau ", "Tau", "START", "END", "|||"],
+]
+
+
+def rename(t: Any, m: dict[str, str]) -> Any:
+    return m[t] if isinstance(t, str) else (t[0], tuple(rename(k, m) for k in t[1]))
+
+
+def run_named(t: Any, m: dict[str, str]) -> dict[str, Any]:
+    """the same contract as run_case, for the tree with its events renamed by the injective map m"""
+    res = run_case(rename(t, m))
+    for v in res["violations"]:
+        v["key"] += ".event_names"
+        v["case"] = {"base_tree": show(t), "names": m, **v["case"]}
+    res["sample"] = None
+    return res
+
+
 def parse(s: str) -> Any:
     """inverse of show()"""
     s = s.strip()
@@ -234,6 +262,8 @@ def _work(t: Any) -> dict[str, Any]:
             return run_family(t[1])
         if isinstance(t, tuple) and t and t[0] == "history":
             return run_history(t[1])
+        if isinstance(t, tuple) and t and t[0] == "named":
+            return run_named(t[1], t[2])
         return run_case(t)
     except Exception as e:  # noqa: BLE001
         return {"violations": [], "harness_error": f"{type(e).__name__}: {e} {traceback.format_exc()[-600:]}", "exact": False}
@@ -250,7 +280,9 @@ def main() -> int:
     logging.disable(logging.CRITICAL)
     if a.replay:
         data = json.load(open(a.replay))
-        if "history" in data["case"]:
+        if "names" in data["case"]:
+            res = _work(("named", parse(data["case"]["base_tree"]), data["case"]["names"]))
+        elif "history" in data["case"]:
             res = _work(("history", tuple(frozenset(x) for x in data["case"]["family"])))
         elif "family" in data["case"]:
             res = _work(("family", tuple(frozenset(x) for x in data["case"]["family"])))
@@ -297,6 +329,15 @@ def main() -> int:
                                                                       and len({e for s in outcomes(t) for e in s}) <= 4]
     n_hist = len(hist)
     cases += [("history", f) for f in hist]
+    # every tree over <= 4 (thorough 5) events under adversarial event names: each name pool, one (thorough three) random injective naming
+    named = []
+    base = [t for n2 in range(2, (4 if a.tier == "quick" else 5) + 1) for t in trees(tuple(events[:n2]), 3, None)]
+    for t in base:
+        for pool_ in NAME_POOLS:
+            for _ in range(1 if a.tier == "quick" else 3):
+                named.append(("named", t, dict(zip(events, rng.sample(pool_, len(pool_))))))
+    n_named = len(named)
+    cases += named
     from multiprocessing import Pool
     viol: dict[str, Any] = {}
     n = nexact = 0
@@ -313,7 +354,7 @@ def main() -> int:
                 viol.setdefault(v["key"], v)
             if len(samples) < 4 and res.get("sample") and res["sample"].get("tree", "").count("(") >= 2:
                 samples.append(res["sample"])
-    out = {"mode": "gates", "evaluations": n, "distinct_nontrivial": n, "exact_subclass_trees": nexact, "gate_trees": n - n_fam - n_hist, "arbitrary_families": n_fam, "history_cases": n_hist,
+    out = {"mode": "gates", "evaluations": n, "distinct_nontrivial": n, "exact_subclass_trees": nexact, "gate_trees": n - n_fam - n_hist - n_named, "arbitrary_families": n_fam, "history_cases": n_hist, "renamed_trees": n_named,
            "exhaustive": a.tier == "thorough", "max_events": nmax,
            "samples": samples, "violations": list(viol.values()), "seconds": round(time.time() - t0, 1), "harness_errors": errors[:3],
            "n_harness_errors": len(errors)}
